@@ -277,7 +277,10 @@ Definition irr_range (from until : Z) (r : rst) : rst :=
     let kn := filter (fun k => negb ((from <=? k) && (k <? until))) (r_known r) in
     if until >? r_base r then set_bk (adv until kn) r
     else set_bk (r_base r, kn) r
-  else set_bk (r_base r, union (r_known r) (zrange from (Z.to_nat (until - from)))) r.
+  else
+    (* repo fix c71c7f1: markers only up to min(until - 1, ack_base + 255), the window the next ACKNACK can mention *)
+    let last_to_mark := Z.min (until - 1) (r_base r + 255) in
+    set_bk (r_base r, union (r_known r) (zrange from (Z.to_nat (last_to_mark + 1 - from)))) r.
 
 (* set_irrelevant_change *)
 Definition set_irr (sn : Z) (r : rst) : rst :=
